@@ -84,6 +84,7 @@ impl Shiftable for Token {
     fn shift(self, offset: usize) -> Self {
         Self {
             range: self.range.shift(offset),
+            errors: self.errors.shift(offset),
             ..self
         }
     }
